@@ -26,6 +26,10 @@ def cfg(tier):
     return CFG
 
 
+def program_strategy(cfg, cache):
+    return gen.mixed_program(cfg, cache)
+
+
 def drive(draw, h, cfg):
     h.c01_nontrivial = False
     names = list(h.prog_rel['funcs'])
@@ -73,6 +77,7 @@ class _Big:
     CLAUSES = CLAUSES
     CFG = CFG_BIG
     drive = staticmethod(lambda draw, h, cfg: drive(draw, h, cfg))
+    program_strategy = staticmethod(lambda cfg, cache: gen.mixed_program(cfg, cache))
     nontrivial = staticmethod(lambda h: h.c01_nontrivial)
 
 
